@@ -57,7 +57,7 @@ def main(argv):
                 broken.append({"obligation": th, "axioms": extra})
         required = getattr(mod, "REQUIRED_THEOREMS", [])
         for th in required:
-            if f"QV.Props.{th}" not in audit:
+            if not any(name == f"QV.Props.{th}" or name.endswith("." + th) for name in audit):
                 broken.append({"obligation": th, "missing": True})
     lc = None
     if tier == "thorough" and build_ok and not replay_path:
